@@ -786,3 +786,90 @@ R.contract(
     bounded_note="ten spellings of `type` (five single types, five lists)",
     replayable=False,
 )
+
+
+# ------------------------------------------------------------------------------------------------- has_only_additional_properties_in_non_body_parameters: when may an accepted negative case be excused?
+# negative_data_rejection (verified above) does not report an accepted negative case whose ONLY negation is extra members in query / headers / cookies. That excuse must
+# not cover any other negation: a negative body or path, or a negative query / header / cookie value that is invalid even WITHOUT its undeclared members.
+GMETA = "schemathesis.generation.meta:"
+
+
+def _mode_obj(name):
+    return lambda it: (it.ensure_enum(it.resolve_class("schemathesis.generation:GenerationMode")), it.resolve_class("schemathesis.generation:GenerationMode").members[name])[1]
+
+
+class _Components(D):
+    """meta.components: any subset of the five kinds, each POSITIVE or NEGATIVE."""
+
+    def make(self, it, name, idx=()):
+        from pyvc.values import VObj
+
+        kinds = it.resolve_class(GMETA + "ComponentKind")
+        it.ensure_enum(kinds)
+        info = it.resolve_class(GMETA + "ComponentInfo")
+        out = {}
+        for kname in ("QUERY", "PATH_PARAMETERS", "HEADERS", "BODY"):
+            pick = it.path.choose([("absent", True), ("POSITIVE", True), ("NEGATIVE", True)], f"component:{kname}")
+            if pick != "absent":
+                out[kinds.members[kname]] = VObj(info, {"mode": _mode_obj(pick)(it)})
+        return out
+
+
+def _validator_cls(it, a, k):
+    from pyvc.values import VObj
+
+    return VObj(it.resolve_class("spec:LocationValidator"), {"schema": a[0]})
+
+
+def _is_valid_without_extras(it, obj, a, k):
+    ans = Bool.make(it, it.path.fresh("valid_without_extras"))
+    it.ghost["validated"] = it.ghost.get("validated", []) + [(obj.fields["schema"], a[0], ans)]
+    return ans
+
+
+R.nominal_methods["spec:LocationValidator"] = {"is_valid": _is_valid_without_extras}
+_gsl3 = R.contracts.get("schemathesis.specs.openapi._hypothesis:get_schema_for_location")
+if _gsl3 is None:
+    R.contract("schemathesis.specs.openapi._hypothesis:get_schema_for_location", args={"operation": Opq("Any"), "location": Opq("Any"), "parameters": Opq("Any")},
+               returns=lambda it, env: ("schema-of", env["location"]), trusted=True, note="C01 contracts: the JSON Schema of one location")
+else:
+    _gsl3_before = _gsl3.returns
+    _gsl3.returns = lambda it, env: ("schema-of", env["location"]) if getattr(it.top_contract, "target", "").endswith("has_only_additional_properties_in_non_body_parameters") else (_gsl3_before(it, env) if callable(_gsl3_before) else _gsl3_before.make(it, it.path.fresh("ret:gsl")))
+_Declared = lambda: Const(("declared",))
+_LocValue = lambda: OneOf(NoneT, DictOf(optional={"declared": Opq("Value"), "extra": Opq("Value")}))
+R.contract(
+    CKS + "has_only_additional_properties_in_non_body_parameters",
+    variant="definition",
+    prop="C03",
+    args={"case": Obj("spec:ExcusableCase", meta=OneOf(NoneT, Obj("spec:ExcusableMeta", components=_Components())), query=_LocValue(), headers=_LocValue(), cookies=NoneT,
+                      operation=Obj("spec:ExcusableOperation", query=_Declared(), headers=_Declared(), cookies=_Declared(),
+                                    schema=Obj("spec:SchemaWithValidator", validator_cls=Callable_(contract="spec:validator_cls", name="validator_cls"))))},
+    ghost={"validated": []},
+    raises=[],
+    ensures={
+        "never_for_a_hand_made_case_or_a_negative_body_or_path": "implies(case.meta is None or negative_in(case, 'BODY') or negative_in(case, 'PATH_PARAMETERS'), result is False)",
+        # excused only if every negative non-body location is valid once its UNDECLARED members are taken away (checked against that location's schema)
+        "excused_iff_every_negative_location_is_valid_without_its_undeclared_members": "implies(case.meta is not None and not negative_in(case, 'BODY') and not negative_in(case, 'PATH_PARAMETERS'), "
+                                                                                     "iff(result, all(ans for (schema, value, ans) in ghost('validated'))))",
+        "each_negative_location_is_checked_without_extras_against_its_own_schema": "all(any(schema == ('schema-of', kind_of(loc)) and 'extra' not in value and iff('declared' in value, 'declared' in value_of(case, loc)) "
+                                                                                   "for (schema, value, ans) in ghost('validated')) for loc in ('QUERY', 'HEADERS') if result and negative_in(case, loc) and value_of(case, loc) is not None)",
+    },
+    bounded_note="components over query / path / headers / body, values with one declared and one undeclared member",
+    replayable=False,
+)
+R.contract("spec:validator_cls", args={"schema": Opq("Any")}, returns=lambda it, env: _validator_cls(it, [env["schema"]], {}), trusted=True, note="E3 jsonschema validator class: validator_cls(schema).is_valid(instance)")
+
+
+def _negative_in(it, case, kname):
+    meta = case.fields["meta"]
+    if meta is None:
+        return False
+    kinds = it.resolve_class(GMETA + "ComponentKind")
+    it.ensure_enum(kinds)
+    info = meta.fields["components"].get(kinds.members[kname])
+    return info is not None and info.fields["mode"].fields["name"] == "NEGATIVE"
+
+
+R.spec_funcs["negative_in"] = _negative_in
+R.spec_funcs["value_of"] = lambda it, case, kname: case.fields[{"QUERY": "query", "HEADERS": "headers", "COOKIES": "cookies"}[kname]]
+R.spec_funcs["kind_of"] = lambda it, kname: (it.ensure_enum(it.resolve_class(GMETA + "ComponentKind")), it.resolve_class(GMETA + "ComponentKind").members[kname])[1]
